@@ -554,6 +554,7 @@ pub const COMMANDS: &[&str] = &[
     "echo \"$ not\"",
     "ls ünï",
     "echo {a,b}",
+    "",
 ];
 pub const CONT: &[&str] = &["arg", "EOF", "| sort", "  indented", "> nested"];
 pub const COMMENTS: &[&str] = &["# a comment", "#!shebang-ish", "#", "# $ not a command"];
@@ -623,7 +624,7 @@ pub fn scrut_blk() -> BoxedStrategy<ScrutBlk> {
 
 fn core_blk() -> BoxedStrategy<Blk> {
     prop_oneof![
-        4 => scrut_blk().prop_map(Blk::Scrut),
+        8 => scrut_blk().prop_map(Blk::Scrut),
         2 => vec(proptest::sample::select(TITLE_PROSE.to_vec()).prop_map(String::from), 1..3).prop_map(|lines| Blk::Prose { lines }),
         2 => vec(proptest::sample::select(OTHER_PROSE.to_vec()).prop_map(String::from), 1..3).prop_map(|lines| Blk::Prose { lines }),
         1 => vec(prop_oneof![
